@@ -352,10 +352,19 @@ class Executor(ExprMixin, StmtMixin, CallMixin, ContractMixin):
                 lab = 'raises-only-when:' + cands[0].label
                 self.oblige(st, z3.Or(whens), 'exc-post', lab, carries=cands[0].carries, node=node,
                             info={'claim': '%s is raised only when: %s' % (exc.cls.split('.')[-1], ' or '.join(r.when for r in cands))})
-            for r in cands:
-                guard = z3.BoolVal(True)
+            earlier = []
+            for r in c.raises:
+                # clauses are prioritised: a clause fires only if no earlier deterministic clause does
+                g = None
                 if r.when is not None:
-                    guard = self.eval_contract_expr(self.pre_state, r.when, None, None, use_env=self.entry_env, sink=st)
+                    g = self.eval_contract_expr(self.pre_state, r.when, None, None, use_env=self.entry_env, sink=st)
+                if r not in cands:
+                    if g is not None:
+                        earlier.append(g)
+                    continue
+                guard = z3.And([g if g is not None else z3.BoolVal(True)] + [z3.Not(x) for x in earlier])
+                if g is not None:
+                    earlier.append(g)
                 for cl in r.then:
                     t = self.eval_contract_expr(st, cl.expr, None, self.pre_state, use_env=env)
                     self.oblige(st, z3.Implies(guard, t), 'exc-post', r.label + ':' + cl.label,
